@@ -342,10 +342,27 @@ def session_policing(chk):
             events.append("req")
             return reply(peer.decode(dg))
 
+        class SockProxy:
+            """the session's socket with every send_* call logged at the moment it is made (the policer must have
+            been consulted BEFORE the request leaves, not after)"""
+
+            def __init__(self, inner):
+                self._inner = inner
+
+            def __getattr__(self, name):
+                attr = getattr(self._inner, name)
+                if name.startswith("send_"):
+                    def logged(*a, **k):
+                        events.append("send")
+                        return attr(*a, **k)
+                    return logged
+                return attr
+
         async def main(port):
             from gufo.snmp.async_client import SnmpSession as ASession
-            s = ASession("127.0.0.1", port=port, community="public", version=SnmpVersion.v2c, timeout=0.2,
+            s = ASession("127.0.0.1", port=port, community="public", version=SnmpVersion.v2c, timeout=1.0,
                          policer=Counting(), max_repetitions=2)
+            s._sock = SockProxy(s._sock)
             if what == "get":
                 await s.get("1.3.6.1.1")
             elif what == "get_many":
@@ -357,6 +374,13 @@ def session_policing(chk):
         e2e.run_async(main, ascript)
         n += 1
         nreq = events.count("req")
+        order = [e for e in events if e != "req"]
+        if order != ["wait", "send"] * (len(order) // 2) or len(order) != 2 * nreq:
+            chk.violation("oracle", f"async SnmpSession.{what} with a policer: the policer must be awaited before each request is "
+                          f"handed to the socket; observed {order[:12]} for {nreq} requests",
+                          {"kind": "oracle", "lines": [f"async {what}"], "impl": [str(events)],
+                           "expected": "wait, send, wait, send, ..."})
+        events[:] = [e for e in events if e != "send"]
         if not (events == ["wait", "req"] * nreq and nreq >= 1):
             chk.violation("oracle", f"async SnmpSession.{what} with a policer: {nreq} requests but the policer was "
                           f"consulted {events.count('wait')} times (events {events[:12]})",
